@@ -393,7 +393,10 @@ def run_history_case(c, extra_cfg=None):
             conn.sched = []
         elif opc == 5:
             slot, v = a[pos + 1], a[pos + 2]
-            client.set_config(CFG_KEYS[slot], cfg_value(slot, v, conn))
+            try:
+                client.set_config(CFG_KEYS[slot], cfg_value(slot, v, conn))
+            except Exception as e:
+                out += [2, err_code(e)]
             pos += 3
         elif opc == 6:
             clk.us += a[pos + 1]
@@ -532,7 +535,10 @@ def parse_calls(r, ncalls):
                 d['sdata'] = r[i + 1:i + 1 + n]
                 i += 1 + n
             else:
-                raise RuntimeError('value-returning calls must be parsed by the property module')
+                d['kind'] = 'value'
+                n = r[i + 2]
+                d['value'] = bytes(r[i + 3:i + 3 + n])
+                i += 3 + n
         elif k == 1:
             d['kind'] = 'returned'
             d['resp'], i = _parse_resp(r, i + 1)
